@@ -123,6 +123,12 @@ def _steps_of(hist, name):
             elif f == "write_rst":
                 st["fn"] = "write"
                 st["hdrs"] = [{"g": 80, "v": 1, "q": 0, "start": 7, "stop": 7, "data": "00"}]
+            elif f in ("record", "cold", "warm"):
+                st["fn"] = {"record": 24, "cold": 13, "warm": 14}[f]
+                st["hdrs"] = []
+            elif f in ("wtabs", "wtlast"):
+                st["fn"] = "write"
+                st["hdrs"] = [{"g": 50, "v": 1 if f == "wtabs" else 3, "q": 7, "count": 1, "data": "881300000000"}]
             elif f == "write2":
                 st["fn"] = "write"
                 ixs = [4, 7] if h.get("ob") == "bg" else [7, 4]
